@@ -497,8 +497,14 @@ def run_property(prop, tier, seed, replay=None):
             for f in sorted(glob.glob(os.path.join(VERIF, "harness", "corpus", prop, "*.json"))):
                 corpus.append(json.load(open(f)))
             n_corpus = len(corpus)
-            cases = corpus + list(mod.cases(tier, seed))
+            gen = list(mod.cases(tier, seed))
+            if not getattr(mod, "ORDERED", False):
+                # a wall-clock budget cut (loaded machine) must thin every stream, not drop the last one
+                import random as _random
+                _random.Random(seed * 1000003 + 17).shuffle(gen)
+            cases = corpus + gen
         budget = getattr(mod, "BUDGET_S", {"quick": 150, "thorough": 1500})[tier]
+        budget = max(budget, {"quick": 600, "thorough": 3600}[tier])
         shutil.rmtree(os.path.join(BUILD, prop.lower(), "xcheck"), ignore_errors=True)
         pool = Pool(modname, hashseeds, 1 if replay else NCPU)
         outcomes, skipped = pool.run(cases, deadline=time.time() + budget)
